@@ -487,6 +487,9 @@ func c16Run(b *core.B) {
 		{"returns-one-element-array", `<% let one = fn(x) { return [x] } %><%= len(one(5)) %>|<%= one(5)[0] %>|<% let o = one("q") %><%= for (e) in o { %>(<%= e %>)<% } %>`, "1|5|(q)"},
 		{"returns-empty-array", `<% let none = fn() { return [] } %><%= len(none()) %>|<%= none() == nil %>`, "0|false"},
 		{"returns-nested-arrays", `<% let pairs = fn(a, b) { return [[a, b], [b, a]] } %><%= len(pairs(1, 2)) %>|<%= len(pairs(1, 2)[0]) %>|<%= pairs(1, 2)[1][0] %>`, "2|2|2"},
+		// calls in the argument lists of calls, evaluated again and again: every call has arguments of its own
+		{"nested-calls-in-arguments-in-a-loop", `<% let sub = fn(a, b) { return a - b } %><% let twice = fn(x) { return x + x } %><%= for (i) in [1, 2, 3] { %><%= sub(10, twice(i)) %>,<%= sub(twice(i), twice(twice(i))) %>;<% } %>`, "8,-2;6,-4;4,-6;"},
+		{"nested-calls-in-arguments-twice", `<% let sub = fn(a, b) { return a - b } %><% let twice = fn(x) { return x + x } %><% let g = fn(n) { return sub(100, sub(twice(n), 1)) } %><%= g(1) %>|<%= g(1) %>|<%= g(2) %>|<%= sub(sub(9, 1), sub(3, twice(1))) %>`, "99|99|97|7"},
 		{"recursive-list-builder", `<% let upto = fn(n) { if (n == 0) { return [] } return upto(n - 1) + n } %><%= len(upto(3)) %>|<%= upto(3) %>`, "3|123"},
 		{"identity-on-go-slices", `<% let id = fn(x) { return x } %><%= len(id(one1)) %>|<%= len(id(nested2)) %>|<%= len(id(nested2)[0]) %>`, "1|2|2"},
 		{"returns-array-from-inside-a-block", `<% let wrap = fn(x) { if (true) { return [x, [x]] } } %><%= len(wrap(1)) %>|<%= len(wrap(1)[1]) %>`, "2|1"},
